@@ -24,7 +24,7 @@ impl Prop for Unsol {
             ("unsol_with_events", 80),
             ("data_series_retried", 10),
             ("deferred_read", 5),
-            ("unsol_series_timed_out", 15),
+            ("unsol_wait_past_its_timeout", 15),
         ]
     }
     fn strategy(tier: Tier) -> BoxedStrategy<Case> {
